@@ -32,6 +32,18 @@ Definition holds_C04_readback (gfx map_ gff music sfx text : list Z) (version : 
 Definition holds_C04_refused (text : list Z) : bool :=
   (area_size <? zlen text) || existsb (Z.eqb 0) text.
 
+(* observation 3': a refusal next to a WITNESS that the code fits compressed: a stream (here: what the library's own
+   compressor returns for the text) that the reference decoder reads back to exactly the text, whose length plus the
+   8 header bytes is within the code area, for a text whose length the two header bytes can hold.  The witness is
+   checked here, by the format's reference decoder, not trusted: if it is valid the code fits the cartridge and the
+   refusal is a violation; if it is not, this observation says nothing. *)
+Definition fits_compressed_witness (text stream : list Z) : bool :=
+  (zlen stream + 8 <=? area_size) && (zlen text <? 65536) &&
+  match pxc_decode (zlen text) stream with Some t => zlist_eqb t text | None => false end.
+
+Definition holds_C04_refused_witness (text stream : list Z) : bool :=
+  negb (fits_compressed_witness text stream).
+
 (* observation 4: the two pixel functions alone, on an image of any width: out = get_pngdata_from_picodata(picodata,
    label) and back = get_picodata_from_pngdata(out).  The low bits of out spell picodata, the upper six bits are the
    label's, and reading out gives picodata back (followed by whatever the remaining pixels held). *)
